@@ -13,6 +13,7 @@ assumed atomic (an incomplete prefix may be visible).
 -/
 import BBProofs.Monitor
 import BBProofs.GenEq7
+import BBProofs.GenEq10
 
 namespace BB.Mon
 
@@ -160,6 +161,25 @@ theorem C20_code_keep (expf : Rat → Rat) (m : Rat) (s : Option Rat) (st iv bg 
       (BBGen.monitor_rss_process_loop expf (PV.flt (some m)) st iv bg (PV.str parent) clk raw).dropLast = [] := by
   rw [gen_monitor_loop_keep expf m s st iv bg clk raw parent hs h, List.dropLast_concat]
   simpa [decodeEff] using decode_csv k parent (PV.flt s) (PV.sub clk st) []
+
+open BB in
+/-- code, the reader `get_peak_memory_gib`: the model reader's four steps in the model's order with the model's outcomes.
+(1) no file: nothing is opened, `None` (`rstep`: `.start ↦ .done none`); (2) the file exists: open for reading, one read,
+close, and the result is `float(text.strip())` (`.sawExists ↦ .opened ↦ .read ↦ parse`); (3) an empty text — what only a
+truncating writer can expose — raises `ValueError` (`.read .empty ↦ .error`). -/
+theorem C20_code_reader_steps (expf : Rat → Rat) (dir : String) (content : PV) :
+    BBGen.get_peak_memory_gib expf (PV.str dir) content (PV.bool false) = [PV.pynone] ∧
+    BBGen.get_peak_memory_gib expf (PV.str dir) content (PV.bool true)
+      = [PV.str "open", PV.str (dir ++ "/" ++ "max-rss.txt"), PV.str "r",
+         PV.str "read", PV.str (dir ++ "/" ++ "max-rss.txt"),
+         PV.str "close", PV.str (dir ++ "/" ++ "max-rss.txt"),
+         PV.floatOf (PV.strStrip content)] ∧
+    PV.floatOf (PV.strStrip (PV.str "")) = PV.err "ValueError" ∧
+    (∀ fs : FS, fs.final = none → rstep fs .start = .done none) ∧
+    (∀ (fs : FS) i, fs.final = some i → rstep fs .start = .sawExists ∧ rstep fs .sawExists = .opened i) ∧
+    rstep {} (.read .empty) = .error :=
+  ⟨gen_reader_absent expf dir content, gen_reader_present expf dir content, floatOf_empty,
+   fun fs h => by simp [rstep, h], fun fs i h => by simp [rstep, h], rfl⟩
 
 open BB in
 /-- premises satisfiable, conclusion non-trivial: three iterations with samples 3.0, 2.0, 5.0 — two updates -/
